@@ -255,6 +255,20 @@ def model_task(task, ybin, root, prop):
             ar = rng.fork("steerarr")
             protos0[0].steps.append(("steerarr", M.Arr(M.Prim(ar.choice(["float32", "int16", "float64", "uint8", "complexfloat32"])), ar.choice([None, 1, 2, ((None, 3),)])), True))
             protos0[0].steps.append(("steerfix", M.Arr(M.Prim(ar.choice(["float32", "int8", "float64"])), ((None, 2), (None, 2))), True))
+            # records of fixed-size fields in the three layout classes a C struct can have: padding after the last field,
+            # padding between fields, none - as stream items, vector elements and fixed-vector elements
+            pr_ = rng.fork("steerpod")
+            wide = lambda: M.Prim(pr_.choice(["float64", "complexfloat64", "float64"]))
+            narrow = lambda: M.Prim(pr_.choice(["float32", "uint8", "int8", "bool"]))
+            fn0 = sorted(pkg.files)[0]
+            pkg.files[fn0].append(M.Record("SteerPodTail", (), [("wide", wide()), ("narrow", narrow())]))
+            pkg.files[fn0].append(M.Record("SteerPodInner", (), [("narrow", narrow()), ("wide", wide())]))
+            pkg.files[fn0].append(M.Record("SteerPodPacked", (), [("first", M.Prim("float32")), ("second", M.Prim("float32"))]))
+            pkg.files[fn0].append(M.Record("SteerPodNested", (), [("head", M.Named("SteerPodTail")), ("tail", M.Prim(pr_.choice(["uint8", "float32"])))]))
+            protos0[0].steps.append(("steerpodt", M.Named("SteerPodTail"), True))
+            protos0[0].steps.append(("steerpodi", M.Vec(M.Named("SteerPodInner")), False))
+            protos0[0].steps.append(("steerpodp", M.Vec(M.Named("SteerPodPacked"), 2), False))
+            protos0[0].steps.append(("steerpodn", M.Vec(M.Named("SteerPodNested")), True))
     model = P.PyModel(pkg, ybin, root, want_cpp=want_cpp, cpp_opts=C.CPP_OPTS)
     stats, viols, cases = {"models_with_cpp": 1 if want_cpp else 0}, [], []
     try:
